@@ -283,7 +283,25 @@ func c06AuthThenInvalid(c *vk.Ctx, r *rand.Rand, rg *c06Rig, hub *TargetHub, cla
 		first[len(first)-1-r.Intn(16)] ^= 0x01
 		wire = first
 	case "unparseable-address-type":
-		wire = enc.Chunk(append([]byte{byte(5 + r.Intn(250))}, randBytes(r, 20)...), -1)
+		if r.Intn(2) == 0 {
+			wire = enc.Chunk(append([]byte{byte(5 + r.Intn(250))}, randBytes(r, 20)...), -1)
+		} else {
+			// a valid type with flag bits set in the high nibble (0x10 was the one-time-auth flag of the old
+			// protocol) in front of a perfectly formed address: still not an address type the server knows
+			t := pick(r, []byte{0x11, 0x13, 0x14, 0x21, 0x41, 0x81, 0x83, 0xc4, 0xf1})
+			var a []byte
+			switch t & 0x0f {
+			case 1:
+				a = sscodec.AddrIP(caseIP4(caseN&0xffffff), hub.Port, false)
+			case 3:
+				a = sscodec.AddrDomain(caseIP4(caseN&0xffffff).String(), hub.Port)
+			default:
+				a = sscodec.AddrIP(caseIP6(caseN&0xffffff), hub.Port, false)
+			}
+			a[0] = t
+			wire = enc.Chunk(append(a, randBytes(r, 10)...), -1)
+			class = "address-type-with-flag-bits"
+		}
 	case "truncated-address-then-garbage":
 		wire = append(wire, enc.Chunk([]byte{3, 200, 'a', 'b'}, -1)...) // domain of 200 bytes announced, 2 given
 		wire = append(wire, randBytes(r, 300)...)
